@@ -113,6 +113,30 @@ def rep_strategy(rep):
     return FixedRepetitionStrategy(int(rep))
 
 
+def bump_registry_counts(prog, by=1):
+    """The same program with every registry-provided count raised by `by` (the registry entry 'n<k>' is set accordingly by the caller)."""
+    out = []
+    for e in prog:
+        if e[0] == 'sub':
+            rep = e[1]
+            if isinstance(rep, (tuple, list)):
+                rep = ('reg', int(rep[1]) + by)
+            out.append((e[0], rep, bump_registry_counts(e[2], by)) + tuple(e[3:]))
+        else:
+            out.append(e)
+    return tuple(out)
+
+
+def registry_counts(prog):
+    out = set()
+    for e in prog:
+        if e[0] == 'sub':
+            if isinstance(e[1], (tuple, list)):
+                out.add(int(e[1][1]))
+            out |= registry_counts(e[2])
+    return out
+
+
 def rep_count(rep):
     return int(rep[1]) if isinstance(rep, (tuple, list)) else int(rep)
 
@@ -163,7 +187,9 @@ def build(prog, rep=1, acq_from=None, root=None, observe=None, share_links=False
                 observe(circ)
         else:
             raise ValueError('unknown entry %r' % (e,))
-    return Built(tuple(prog), circ, ent, subs, rep)
+    built = Built(tuple(prog), circ, ent, subs, rep)
+    built.registries = _SHARED_REGISTRY[0]     # the RepetitionRegistry that provides ('reg', n) counts of this build, if any
+    return built
 
 
 def prog_footprint(prog):
